@@ -11,5 +11,6 @@ for c in json.load(open('/verif/MANIFEST.json'))['checks']:
     e = json.load(open('/verif/' + c['evidence_file']))
     jsonschema.validate(e, sch)
     assert e['coverage']['obligations'] == e['coverage']['discharged'], c['property_id']
+    assert e['level'] == c['level_claimed']['category'], c['property_id']
 print("evidence valid")
 PY
